@@ -179,3 +179,40 @@ Theorem C08_no_error_without_script_events :
     no_script evs -> Forall (fun o : @out T BS => o_err o = false) (run_cfg O fixed efix it0 tsfs cfgs evs).
 Proof. exact @run_cfg_noerr. Qed.
 Print Assumptions C08_no_error_without_script_events.
+
+(* ---- round 2 ------------------------------------------------------------------------------------------ *)
+
+(* Variable-level timeStepFactor, positive statement (after the repair of the first step): in every run, a
+   variable with factor n > 1 is active (evaluated) at a calc() exactly when the step is a multiple of n OR an
+   active bias uses it.  The second disjunct is the recorded finding (C08_variable_factor_refuted); no force is
+   ever scaled by a variable's factor (C08_pipeline_closed_form has only the biases' factors). *)
+Theorem C08_variable_schedule :
+  forall (BS : Type) (efix : bool) (it0 : Z) (tsfs : list Z) (cfgs : list (@bias_cfg R BS)) (evs : list (@event R)),
+    Forall (fun o : @out R BS =>
+              forall i v, nth_error (o_vars o) i = Some v -> (1 <? v_tsf v)%Z = true ->
+                v_active v = on_schedule (o_it o) (v_tsf v) || (0 <? refs (o_biases o) i)%Z)
+           (run_cfg Rops true efix it0 tsfs cfgs evs).
+Proof. exact (fun BS efix it0 tsfs cfgs evs => @variable_schedule BS true efix it0 tsfs cfgs evs eq_refl). Qed.
+Print Assumptions C08_variable_schedule.
+
+(* n-ary superposition: at every calc() the force on every coordinate and the energy of a run with any list of
+   biases are the sums over the biases of the force / energy of the run with that bias alone. *)
+Theorem C08_superposition_all :
+  forall (BS : Type) (fixed efix : bool) (it0 : Z) (tsfs : list Z) (cfgs : list (@bias_cfg R BS)) (evs : list (@event R)) (j : nat),
+    (forall k, nth_force (run_cfg Rops fixed efix it0 tsfs cfgs evs) j k
+               = rsum (map (fun c => nth_force (run_cfg Rops fixed efix it0 tsfs [c] evs) j k) cfgs)) /\
+    nth_energy (run_cfg Rops fixed efix it0 tsfs cfgs evs) j
+    = rsum (map (fun c => nth_energy (run_cfg Rops fixed efix it0 tsfs [c] evs) j) cfgs).
+Proof. exact @superposition_all. Qed.
+Print Assumptions C08_superposition_all.
+
+(* Impulse of several biases with different factors sharing variables: over ANY window of calls the impulse
+   delivered on a coordinate is the sum of the impulses of the members run alone (each of which is n_b * F_b(m n_b)
+   per complete window of its own factor, C08_impulse; window_force_firstn relates the two notations). *)
+Theorem C08_impulse_shared :
+  forall (BS : Type) (fixed efix : bool) (it0 : Z) (tsfs : list Z) (cfgs : list (@bias_cfg R BS)) (evs : list (@event R))
+         (j N k : nat),
+    window_force (run_cfg Rops fixed efix it0 tsfs cfgs evs) j N k
+    = rsum (map (fun c => window_force (run_cfg Rops fixed efix it0 tsfs [c] evs) j N k) cfgs).
+Proof. exact @impulse_shared. Qed.
+Print Assumptions C08_impulse_shared.
